@@ -166,7 +166,8 @@ class BaseMatching(object):
                                     logprob=new_logprob, logprobne=new_logprobne,
                                     logprobe=new_logprobe, logprobema=new_logprobema,
                                     obs=obs, obs_ne=obs_ne, prev={self}, dist_obs=dist,
-                                    stop=new_stop, length=new_length, delayed=self.delayed,
+                                    stop=new_stop, length=new_length,
+                                    delayed=max(self.delayed, self.matcher.expand_now),
                                     **props_trans, **props_obs)
             return m_next
         else:
